@@ -106,6 +106,11 @@ func ownFrames(c *vk.Ctx, frames []rig.Frame) []rig.Frame {
 }
 
 func checkWire(c *vk.Ctx, desc string, frames []rig.Frame, c0 int, role rig.Role, sawLogon bool, replay map[string]interface{}, locs ...*time.Location) (sig string, switches int) {
+	return checkWireIDs(c, desc, frames, c0, role, sawLogon, replay, rig.LibID, rig.PeerID, locs...)
+}
+
+// checkWireIDs is checkWire for a session whose identifiers are not the rig's default ones.
+func checkWireIDs(c *vk.Ctx, desc string, frames []rig.Frame, c0 int, role rig.Role, sawLogon bool, replay map[string]interface{}, wantSender, wantTarget string, locs ...*time.Location) (sig string, switches int) {
 	loc := time.UTC
 	if len(locs) > 0 && locs[0] != nil {
 		loc = locs[0]
@@ -139,8 +144,8 @@ func checkWire(c *vk.Ctx, desc string, frames []rig.Frame, c0 int, role rig.Role
 			return
 		}
 		if sawLogon || i > 0 || role == rig.Initiator {
-			if fixref.GetS(f.Fields, rig.TSender) != rig.LibID || fixref.GetS(f.Fields, rig.TTarget) != rig.PeerID {
-				c.Violate("C05/wrong-comp-ids/"+role.String(), fmt.Sprintf("%s: frame %d (35=%s 34=%s) carries 49=%s 56=%s, want 49=%s 56=%s", desc, i, f.Type, f.Seq, fixref.GetS(f.Fields, rig.TSender), fixref.GetS(f.Fields, rig.TTarget), rig.LibID, rig.PeerID), replay)
+			if fixref.GetS(f.Fields, rig.TSender) != wantSender || fixref.GetS(f.Fields, rig.TTarget) != wantTarget {
+				c.Violate("C05/wrong-comp-ids/"+role.String(), fmt.Sprintf("%s: frame %d (35=%s 34=%s) carries 49=%s 56=%s, want 49=%s 56=%s", desc, i, f.Type, f.Seq, fixref.GetS(f.Fields, rig.TSender), fixref.GetS(f.Fields, rig.TTarget), wantSender, wantTarget), replay)
 				return
 			}
 		}
@@ -463,6 +468,10 @@ func scenario(c *vk.Ctx, i int) {
 	if role == rig.Acceptor && i%3 == 0 {
 		last := c0 + len(frames)
 		lateSend := (i/6)%2 == 1
+		// one message object that the application publishes to both sessions (a cached snapshot)
+		shared := fixgen.CreateMarketDataRequestReject("published-to-both-sessions")
+		_ = l.S.Send(shared)
+		time.Sleep(20 * time.Millisecond)
 		if lateSend {
 			// one more send on the first session: it draws its number, is saved, and is then held in an outgoing handler
 			go func() { _ = l.S.Send(fixgen.CreateMarketDataRequestReject("hold-me")) }()
@@ -479,7 +488,15 @@ func scenario(c *vk.Ctx, i int) {
 		last = c0 + len(fr2)
 		cur, _ := st.GetCurrSeqNum(fix.StorageID{Side: fix.Outgoing})
 		l2, err := f.Connect("c05-second")
+		wantS, wantT := rig.LibID, rig.PeerID
+		if err == nil && i%12 == 0 {
+			// the second counterparty has identifiers of its own: the accepting session mirrors them
+			l2.Peer.Sender, l2.Peer.Target = "PEER-TWO", "LIB-TWO"
+			wantS, wantT = "LIB-TWO", "PEER-TWO"
+			c.Count("second_sessions_with_other_identifiers", 1)
+		}
 		if err == nil && l2.Logon(role, 30, 5*time.Second) {
+			_ = l2.S.Send(shared)
 			// the later session keeps sending for longer than two heartbeat periods of the session that is gone (N=1):
 			// nothing that session left behind may draw numbers from the shared store meanwhile
 			for k := 0; k < 3; k++ {
@@ -497,7 +514,7 @@ func scenario(c *vk.Ctx, i int) {
 			time.Sleep(50 * time.Millisecond)
 			frames2, _ := l2.Frames()
 			// numbers assigned to messages that never reached the first connection (closed) are consumed; the second session continues from the stored counter
-			checkWire(c, desc+" [second session on the same counter store, counter was "+strconv.Itoa(cur)+", last on first wire "+strconv.Itoa(last)+"]", frames2, cur, role, false, replay, loc)
+			checkWireIDs(c, desc+" [second session on the same counter store, counter was "+strconv.Itoa(cur)+", last on first wire "+strconv.Itoa(last)+"]", frames2, cur, role, false, replay, wantS, wantT, loc)
 			c.Count("second_sessions_checked", 1)
 		}
 	}
